@@ -366,6 +366,19 @@ def main(spec, argv=None):
                    summ['distinct_nontrivial'], summ['status'], wall))
     report.say('  faults fired: {}'.format(summ['faults']))
     report.say('  probes: {}'.format(summ['probes']))
+    seen_err = set()
+    for out in done:
+        for which in ('twin', 'hist'):
+            r = out.get(which)
+            if r is not None and r['status'] == 'sut_exception':
+                k = (r.get('error') or '')[:70]
+                if k not in seen_err and len(seen_err) < 6:
+                    seen_err.add(k)
+                    report.say('  note: run {} {} aborted by {} (in '
+                               'nautilus: {}) at {}'.format(
+                                   out['i'], which, r.get('error'),
+                                   r.get('in_nautilus'),
+                                   (r.get('where') or [None])[-1]))
     if verdict.violations:
         return env.EXIT_VIOLATION
     if (not spec.sut_exception_is_violation and abort_frac > 0.2):
